@@ -165,6 +165,9 @@ struct Item {
   kind: Kind,
   id: u32,
   v: u16,
+  /// the change may or may not become a sample (an otherwise good DATA with a malformed
+  /// optional inline-QoS parameter): delivering it is allowed, not demanded
+  opt: bool,
 }
 
 fn name_for(it: &Item) -> String {
@@ -365,7 +368,8 @@ fn evaluate(form: Form, items: &[Item], outs: &[Out], o: &mut Outcome, known_has
     k => k.good(no_key),
   };
   let good: Vec<&Item> = items.iter().filter(|it| is_good(it)).collect();
-  let bad_reporting = items.iter().filter(|it| !is_good(it) && it.kind.may_report()).count();
+  // an optional change may be reported as an error once instead of being delivered
+  let bad_reporting = items.iter().filter(|it| (!is_good(it) && it.kind.may_report()) || it.opt).count();
   let errs = outs.iter().filter(|x| matches!(x, Out::Err)).count();
   if errs > bad_reporting {
     o.violate(
@@ -406,12 +410,12 @@ fn evaluate(form: Form, items: &[Item], outs: &[Out], o: &mut Outcome, known_has
       return;
     }
   }
-  if let Some(missing) = good.iter().find(|it| !delivered.contains_key(&(it.w, it.sn))) {
+  if let Some(missing) = good.iter().filter(|it| !it.opt).find(|it| !delivered.contains_key(&(it.w, it.sn))) {
     // which bad change precedes it?
     let blocker = items
       .iter()
-      .filter(|it| !is_good(it) && (it.w == missing.w && it.sn < missing.sn))
-      .map(|it| it.kind.name())
+      .filter(|it| (!is_good(it) || it.opt) && (it.w == missing.w && it.sn < missing.sn))
+      .map(|it| if it.opt { "bad:malformed-optional-inline-qos" } else { it.kind.name() })
       .last()
       .unwrap_or("none-of-same-writer");
     o.violate(
@@ -459,6 +463,7 @@ fn gen_items(c: &mut Choices, no_key: bool) -> (Vec<Item>, usize) {
       kind,
       id,
       v: c.u16(),
+      opt: false,
     });
     next_sn[w] += 1;
   }
@@ -482,6 +487,7 @@ fn insert_long_run(c: &mut Choices, items: &mut Vec<Item>, nwriters: usize) -> O
       sn: 0,
       kind,
       id: if kind == Kind::UnknownHash { 900 + (k % 3) as u32 } else { (k % 3) as u32 },
+      opt: false,
       v: k as u16,
     })
     .collect();
@@ -858,10 +864,57 @@ fn scenario_wire(c: &mut Choices, o: &mut Outcome) {
       .collect::<Vec<_>>()
   );
   o.digest = fnv(o.sample.as_bytes());
+  // arrival order: usually as sent, sometimes with neighbours swapped or a stretch reversed
+  // (UDP reordering, retransmission after loss); drawn last
+  let mut order: Vec<usize> = (0..items.len()).collect();
+  if items.len() >= 2 && c.chance(110) {
+    for _ in 0..1 + c.pick(3) {
+      let i = c.pick(items.len() - 1);
+      if c.chance(200) {
+        order.swap(i, i + 1);
+      } else {
+        let j = (i + 2 + c.pick(4)).min(items.len());
+        order[i..j].reverse();
+      }
+    }
+    if order.windows(2).any(|w| w[0] > w[1]) {
+      o.label("arrival-out-of-order");
+      o.sample.push_str(&format!(" arrival={order:?}"));
+      o.digest = fnv(o.sample.as_bytes());
+    }
+  }
+  // malformed OPTIONAL inline-QoS parameters on otherwise ordinary DATA (drawn after everything
+  // else): whether such a change becomes a sample is the implementation's business, but it must
+  // not keep the changes behind it from being delivered
+  let mut deco: Vec<u8> = vec![0; items.len()];
+  if c.chance(90) {
+    for _ in 0..1 + c.pick(3) {
+      let i = c.pick(items.len());
+      if wires[i] == Wire::Item && matches!(encode(&items[i], false), DDSData::Data { .. }) {
+        deco[i] = 1 + c.pick(5) as u8;
+        items[i].opt = true;
+      }
+    }
+    if deco.iter().any(|d| *d != 0) {
+      o.label("malformed-optional-inline-qos");
+      o.sample.push_str(&format!(" malformed-inline-qos={:?}", deco.iter().enumerate().filter(|(_, d)| **d != 0).map(|(i, d)| (i + 1, *d)).collect::<Vec<_>>()));
+      o.digest = fnv(o.sample.as_bytes());
+    }
+  }
+  let deco_params = |d: u8| -> Option<Vec<(u16, Vec<u8>)>> {
+    match d {
+      0 => None,
+      1 => Some(vec![(0x0083, vec![1, 2, 3, 4, 5, 6, 7, 8])]),          // PID_RELATED_SAMPLE_IDENTITY, 8 of 24 bytes
+      2 => Some(vec![(0x800f, vec![9, 9, 9, 9])]),                      // PID_RELATED_SAMPLE_IDENTITY_CUSTOM, 4 of 24 bytes
+      3 => Some(vec![(wire::PID_KEY_HASH, vec![7; 8])]),               // key hash of 8 bytes
+      4 => Some(vec![(wire::PID_STATUS_INFO, vec![0, 0, 0, 0, 0, 0, 0, 0])]), // status info of 8 bytes
+      _ => Some(vec![(0x0083, vec![]), (0x0056, vec![1, 2, 3, 4])]),    // empty related identity + short coherent set
+    }
+  };
   let rid = eid_bytes(rig::user_reader_eid(1, true));
   let wid = eid_bytes(rig::user_writer_eid(1, true));
   let mut datagrams: Vec<Vec<u8>> = Vec::new();
-  for (it, w) in items.iter().zip(wires.iter()) {
+  for (idx, (it, w)) in items.iter().zip(wires.iter()).enumerate() {
     let mut dg = wire::rtps_header((2, 4), [1, 0x12], &wguid.prefix.bytes);
     let (flags, body) = match w {
       Wire::Item => {
@@ -871,7 +924,7 @@ fn scenario_wire(c: &mut Choices, o: &mut Outcome) {
             reader_id: rid,
             writer_id: wid,
             sn: it.sn,
-            inline_qos: None,
+            inline_qos: deco_params(deco[idx]),
             payload: Some(sp_bytes(serialized_payload)),
             key_flag: false,
           },
@@ -939,25 +992,6 @@ fn scenario_wire(c: &mut Choices, o: &mut Outcome) {
     };
     wire::push_submessage(&mut dg, wire::DATA, flags, &body, None);
     datagrams.push(dg);
-  }
-  // arrival order: usually as sent, sometimes with neighbours swapped or a stretch reversed
-  // (UDP reordering, retransmission after loss); drawn last
-  let mut order: Vec<usize> = (0..datagrams.len()).collect();
-  if datagrams.len() >= 2 && c.chance(110) {
-    for _ in 0..1 + c.pick(3) {
-      let i = c.pick(datagrams.len() - 1);
-      if c.chance(200) {
-        order.swap(i, i + 1);
-      } else {
-        let j = (i + 2 + c.pick(4)).min(datagrams.len());
-        order[i..j].reverse();
-      }
-    }
-    if order.windows(2).any(|w| w[0] > w[1]) {
-      o.label("arrival-out-of-order");
-      o.sample.push_str(&format!(" arrival={order:?}"));
-      o.digest = fnv(o.sample.as_bytes());
-    }
   }
   for i in &order {
     node.inject(&datagrams[*i]);
